@@ -83,6 +83,8 @@ def tasks(tier, seed):
         T.append(('isolation', json.dumps(c, sort_keys=True)))
     T.append(('lengths', json.dumps(dict(dt=0.25, prob='dahlquist', n=1, qd='LU', sweeper='generic_implicit', M=[2], NP=4, maxiter=1, restol=-1.0, blocks=1, jac=False, postrun=True), sort_keys=True)))
     T.append(('lengths', json.dumps(dict(dt=0.25, prob='dahlquist', n=1, qd='LU', sweeper='generic_implicit', M=[2, 1], NP=3, maxiter=1, restol=-1.0, blocks=1, postrun=True), sort_keys=True)))
+    for c in (dict(base_, M=[2], NP=2, jac=False, maxiter=1), dict(base_, M=[2, 1], NP=2, maxiter=1), dict(base_, M=[2], NP=3, maxiter=1, dt=0.125)):
+        T.append(('splitodd', json.dumps(c, sort_keys=True)))
     T.append(('float', json.dumps(cfgs(tier)[1], sort_keys=True)))
     T.append(('float', json.dumps(cfgs(tier)[5], sort_keys=True)))
     return T
@@ -161,8 +163,8 @@ def compare(rep, name, A, B, xs, assumptions, key_suffix):
     return False
 
 
-def run_once(c, cfg, ctl=None, xs=None, t0=0.0, nsteps=None):
-    ctl_, A, uend, stats, xs = wr.run_symbolic(c, cfg, xs=xs, t0=t0, nsteps=nsteps, ctl=ctl)
+def run_once(c, cfg, ctl=None, xs=None, t0=0.0, nsteps=None, tend_shift=None):
+    ctl_, A, uend, stats, xs = wr.run_symbolic(c, cfg, xs=xs, t0=t0, nsteps=nsteps, ctl=ctl, tend_shift=tend_shift)
     return ctl_, sp.terms(uend), dict(stats), xs
 
 
@@ -246,6 +248,21 @@ def scenario_case(rep, scenario, cfg):
                 # statistics of the two halves together must be the statistics of the uninterrupted run
                 merged = {**sh, **sr}
                 pairs.append(((ufull, sfull), (ur, merged)))
+            return pairs
+
+        if scenario == 'splitodd':
+            # a run whose length is NOT a whole number of blocks, split at a block boundary, with an end time that carries round-off:
+            # Tend = t0 + (NP + 1) dt + k ulp with a symbolic k in [-6, 6] (t0 = 0.5 and dt = 0.25 or 0.125: every such Tend is a double).  A step that
+            # would begin at Tend up to round-off is inside no run, whether it sits in the first block of a run or a later one.
+            k = z3.Int('k_ulp')
+            c.add(z3.And(k >= -6, k <= 6))
+            sh = z3.ToReal(k) * core.rv(2.0**-52)
+            t0_, dt_, NP = 0.5, cfg['dt'], cfg['NP']
+            pairs = []
+            _, ufull, sfull, _ = run_once(c, cfg, xs=xs, t0=t0_, nsteps=NP + 1, tend_shift=sh)
+            _, uh, sh_, _ = run_once(c, cfg, xs=xs, t0=t0_, nsteps=NP)
+            _, ur, sr, _ = run_once(c, cfg, xs=uh, t0=t0_ + dt_ * NP, nsteps=1, tend_shift=sh)
+            pairs.append(((ufull, sfull), (ur, {**sh_, **sr})))
             return pairs
 
     paths = explore(fn, max_paths=2000)
@@ -342,6 +359,22 @@ def float_runs(scenario, cfg, x=0.7321):
         _, b, _ = go(ctl, x0=0.3 * x, t0=3 * cfg['dt'])
         _, c_, _ = go(x0=0.3 * x, t0=3 * cfg['dt'])
         return [(c_, b)]
+    if scenario == 'splitodd':
+        out = []
+        NP = cfg['NP']
+        for k in range(-6, 7):
+            T = 0.5 + (NP + 1) * cfg['dt'] + k * 2.0**-52
+
+            def go2(x0, t0, Tend):
+                ctl, _ = wr.build(cfg, float_mode=True)
+                P = ctl.MS[0].levels[0].prob
+                u0 = P.dtype_u(P.init)
+                u0[:] = x0
+                return np.array(ctl.run(u0, t0, Tend)[0], dtype=float)
+
+            h = go2(x, 0.5, 0.5 + cfg['dt'] * NP)
+            out.append((go2(x, 0.5, T), go2(h, 0.5 + cfg['dt'] * NP, T)))
+        return out
     out = []
     _, full, _ = go()
     for k in range(1, cfg.get('blocks', 1)):
